@@ -89,6 +89,33 @@ def Schema.defName? : Schema → Option String
   | .fixed n _ _ _ => some n
   | _ => none
 
+mutual
+/-- no logical-type annotation anywhere inside the schema -/
+def Schema.plain : Schema → Bool
+  | .prim _ _ lt => lt.isNone
+  | .fixed _ _ lt _ => lt.isNone
+  | .enum .. => true
+  | .ref _ => true
+  | .array items => items.plain
+  | .map values => values.plain
+  | .union bs => Schema.plainList bs
+  | .record _ fs _ => Schema.plainFields fs
+def Schema.plainList : List Schema → Bool
+  | [] => true
+  | s :: rest => s.plain && Schema.plainList rest
+def Schema.plainFields : List Field → Bool
+  | [] => true
+  | .mk _ t _ _ :: rest => t.plain && Schema.plainFields rest
+end
+
+def Env.plain (env : Env) : Bool := env.all fun e => e.2.plain
+
+/-- `not ("-type" in datum and datum["-type"] != name)` -/
+def typeHintOk (kv : List (Val × Val)) (name : String) : Bool :=
+  match dictGetV kv "-type" with
+  | some v => v.strEq name
+  | none => true
+
 def AVRO_TYPE_NAMES : List String :=
   ["boolean", "bytes", "double", "float", "int", "long", "null", "string", "fixed", "enum",
    "record", "error", "array", "map", "union", "request", "error_union"]
